@@ -909,3 +909,195 @@ def opc5_version_coverage(ctx: Ctx) -> None:
             ctx.R.ok("OPC-5", key[:110], f"reachable under {cur[key]}")
     if missing:
         raise AnalysisError(f"OPC-5: {len(missing)} reference opcode test(s) are no longer present with the same text, e.g. `{missing[0][:100]}`: cannot decide version coverage for them")
+
+
+# --------------------------------------------------------------------- OPC-6 exit-call template agreement
+def opc6_exit_templates(ctx: Ctx) -> None:
+    """OPC-6 the literals of the backward pattern match in currently_exiting_context agree with the instruction
+    sequence each compiler emits for the normal-path call of __exit__(None, None, None) (FACTS: exit templates)"""
+    mod = ctx.P.mod("_lowlevel")
+    fn = mod.fn("currently_exiting_context")
+    reach = ctx.reach(mod)
+    T = {v: ctx.F["interp"][v]["exit_templates"] for v in ctx.V.all}
+
+    def live(n: ast.AST):
+        return reach.live.get(id(n), frozenset())
+
+    def opnames_in(e: ast.AST) -> List[str]:
+        return [x.slice.value for x in ast.walk(e) if isinstance(x, ast.Subscript) and isinstance(x.slice, ast.Constant) and isinstance(x.slice.value, str) and _is_opmap(ctx, mod, x.value)]
+
+    n_checked = 0
+    # ---- A: the k-instruction window of 3.9 / 3.10
+    for cmp_ in [c for c in ast.walk(fn) if isinstance(c, ast.Compare) and len(c.ops) == 1]:
+        sides = [cmp_.left, cmp_.comparators[0]]
+        win = [x for x in sides if isinstance(x, ast.Subscript) and norm(x.value) == "code" and isinstance(x.slice, ast.Slice) and x.slice.step is not None]
+        byt = [x for x in sides if isinstance(x, ast.Call) and norm(x.func) == "bytes" and x.args and isinstance(x.args[0], ast.List)]
+        if not win or not byt:
+            continue
+        names = [norm(e.slice)[1:-1] if isinstance(e, ast.Subscript) else None for e in byt[0].args[0].elts]
+        if None in names:
+            continue
+        k = len(names)
+        sl = win[0].slice
+        lo, hi, step = norm(sl.lower), norm(sl.upper), norm(sl.step)
+        for v in sorted(live(cmp_)):
+            n_checked += 1
+            t = [a for a, b in T[v]["fall/sync"]]
+            calls = [i for i, a in enumerate(t) if a.startswith("CALL")]
+            if not calls:
+                ctx.R.undecided("OPC-6", f"{v}: no call in the exit template")
+                continue
+            c = calls[0]
+            want = t[c - k + 1:c + 1]
+            if names != want:
+                ctx.R.fail("OPC-6", mod, cmp_, f"CPython {v}: the compiler ends the normal-path __exit__ call with {t[max(0, c - k + 1):c + 1]}, the matcher compares the window with {names}",
+                           construct=f"{v}: window opcodes {names}")
+            elif (lo, hi, step) != (f"offs - {2 * (k - 1)}", "offs + 2", "2"):
+                ctx.R.fail("OPC-6", mod, cmp_, f"CPython {v}: a window of {k} code units ending at offs is code[offs - {2 * (k - 1)}:offs + 2:2]; the matcher slices code[{lo}:{hi}:{step}]",
+                           construct=f"{v}: window bounds [{lo}:{hi}:{step}]")
+            else:
+                ctx.R.ok("OPC-6", f"{v}: window {names} == template suffix, bounds [{lo}:{hi}:{step}]")
+            # guard `offs < 2k` in the same condition and the step back over the window afterwards
+            st = _stmt(mod, cmp_)
+            if isinstance(st, ast.If):
+                for g in ast.walk(st.test):
+                    if isinstance(g, ast.Compare) and norm(g.left) == "offs" and isinstance(g.ops[0], ast.Lt) and isinstance(g.comparators[0], ast.Constant):
+                        if g.comparators[0].value == 2 * k:
+                            ctx.R.ok("OPC-6", f"{v}: bounds guard offs < {2 * k}")
+                        else:
+                            ctx.R.fail("OPC-6", mod, g, f"CPython {v}: the window needs offs >= {2 * k} (it starts at offs - {2 * (k - 1)} and the POP_BLOCK before it is at offs - {2 * k}); the guard is `{norm(g)}`",
+                                       construct=f"{v}: window guard {norm(g)}")
+                blk = None
+                p = mod.parent_of(st)
+                for f_ in ("body", "orelse"):
+                    b = getattr(p, f_, None)
+                    if isinstance(b, list) and any(x is st for x in b):
+                        blk = b
+                if blk is not None:
+                    after = blk[blk.index(st) + 1:]
+                    steps = [x for x in after if isinstance(x, ast.AugAssign) and norm(x.target) == "offs"]
+                    if steps:
+                        s0 = steps[0]
+                        if isinstance(s0.op, ast.Sub) and isinstance(s0.value, ast.Constant) and s0.value.value == 2 * k:
+                            ctx.R.ok("OPC-6", f"{v}: steps back {2 * k} bytes from the call to the instruction before the window ({t[c - k]})")
+                        else:
+                            ctx.R.fail("OPC-6", mod, s0, f"CPython {v}: from the CALL the instruction before the {k}-unit window is {2 * k} bytes back ({t[c - k] if c - k >= 0 else '?'}); the matcher does `{norm(s0)}`",
+                                       construct=f"{v}: step over window {norm(s0)}")
+                    # what can sit between POP_BLOCK and the window on jump-out paths must be skipped
+                    tested = set()
+                    for x in after:
+                        for cc in ast.walk(x):
+                            if isinstance(cc, ast.Compare):
+                                tested |= set(opnames_in(cc))
+                    for tname, seq in T[v].items():
+                        if not tname.endswith("/sync"):
+                            continue
+                        tt = [a for a, b in seq]
+                        cs = [i for i, a in enumerate(tt) if a.startswith("CALL")]
+                        if not cs or cs[0] - k < 0:
+                            continue
+                        before = tt[cs[0] - k]
+                        if before == "POP_BLOCK":
+                            # the landing instruction itself: the function must test for it under v
+                            pb = [c2 for c2 in ast.walk(fn) if isinstance(c2, ast.Compare) and norm(c2.left) == "code[offs]" and "POP_BLOCK" in opnames_in(c2) and v in live(c2)]
+                            if pb:
+                                ctx.R.ok("OPC-6", f"{v}: lands on POP_BLOCK ({tname}), which is what the matcher then requires")
+                            else:
+                                ctx.R.fail("OPC-6", mod, st, f"CPython {v}: the instruction before the window is POP_BLOCK but the matcher no longer checks for it", construct=f"{v}: POP_BLOCK check missing")
+                        elif before in tested:
+                            ctx.R.ok("OPC-6", f"{v}: `{before}` before the window ({tname}) is handled")
+                        else:
+                            ctx.R.fail("OPC-6", mod, st, f"CPython {v}: on the '{tname.split('/')[0]}' exit the compiler puts {before} right before the window, and the matcher has no test for it on the way back to POP_BLOCK",
+                                       construct=f"{v}: {before} before window unhandled")
+    # ---- B: 3.11+ LOAD_CONST run, CALL oparg, PRECALL, GET_AWAITABLE oparg
+    loops = [l for l in ast.walk(fn) if isinstance(l, ast.For) and isinstance(l.iter, ast.Call) and norm(l.iter.func) == "range" and len(l.iter.args) == 1
+             and any(isinstance(c, ast.Call) and norm(c.func) == "backtrack_over_load_none" for c in ast.walk(l))]
+    for l in loops:
+        okc, nval = (True, l.iter.args[0].value) if isinstance(l.iter.args[0], ast.Constant) else (False, None)
+        for v in sorted(live(l)):
+            n_checked += 1
+            t = [a for a, b in T[v]["fall/sync"]]
+            c = [i for i, a in enumerate(t) if a.startswith("CALL")][0]
+            j = c - 1
+            while j >= 0 and t[j] in ("PRECALL",):
+                j -= 1
+            run = 0
+            while j >= 0 and t[j] == "LOAD_CONST":
+                run += 1
+                j -= 1
+            if not okc:
+                ctx.R.undecided("OPC-6", f"{v}: range() bound is not a literal")
+            elif nval == run:
+                ctx.R.ok("OPC-6", f"{v}: {run} LOAD_CONST None before the call, matcher backtracks over {nval}")
+            else:
+                ctx.R.fail("OPC-6", mod, l, f"CPython {v}: the compiler pushes {run} None arguments before the __exit__ call, the matcher backtracks over {nval}", construct=f"{v}: range({nval}) vs {run} LOAD_CONST")
+    for cmp_ in [c for c in ast.walk(fn) if isinstance(c, ast.Compare) and len(c.ops) == 1]:
+        sides = [cmp_.left, cmp_.comparators[0]]
+        byt = [x for x in sides if isinstance(x, ast.Call) and norm(x.func) == "bytes" and x.args and isinstance(x.args[0], ast.List) and len(x.args[0].elts) == 2
+               and isinstance(x.args[0].elts[1], ast.Constant)]
+        if byt and opnames_in(byt[0]) == ["CALL"]:
+            m = byt[0].args[0].elts[1].value
+            for v in sorted(live(cmp_)):
+                n_checked += 1
+                arg = [b for a, b in T[v]["fall/sync"] if a == "CALL"]
+                if arg and arg[0] == m:
+                    ctx.R.ok("OPC-6", f"{v}: __exit__ is called with CALL {m}")
+                else:
+                    ctx.R.fail("OPC-6", mod, cmp_, f"CPython {v}: the compiler calls __exit__ with CALL {arg[0] if arg else '?'}, the matcher requires CALL {m}", construct=f"{v}: CALL oparg {m}")
+        # code[offs + 1] != G  next to GET_AWAITABLE
+        if norm(cmp_.left) == "code[offs + 1]" and isinstance(cmp_.comparators[0], ast.Constant):
+            par = mod.parent_of(cmp_)
+            ctxt = par
+            while ctxt is not None and not isinstance(ctxt, ast.stmt):
+                ctxt = mod.parent_of(ctxt)
+            if ctxt is not None and "GET_AWAITABLE" in opnames_in(ctxt.test if hasattr(ctxt, "test") else ctxt):
+                gval = cmp_.comparators[0].value
+                for v in sorted(live(cmp_)):
+                    n_checked += 1
+                    arg = [b for a, b in T[v]["fall/async"] if a == "GET_AWAITABLE"]
+                    if arg and arg[0] == gval and isinstance(cmp_.ops[0], ast.NotEq):
+                        ctx.R.ok("OPC-6", f"{v}: GET_AWAITABLE {gval} marks an __aexit__ await")
+                    elif arg and arg[0] == -1:
+                        ctx.R.fail("OPC-6", mod, cmp_, f"CPython {v}: GET_AWAITABLE has no oparg there, but its argument byte is compared with {gval} on a path reachable under {v}", construct=f"{v}: GET_AWAITABLE oparg test")
+                    else:
+                        ctx.R.fail("OPC-6", mod, cmp_, f"CPython {v}: the compiler emits GET_AWAITABLE {arg[0] if arg else '?'} for __aexit__, the matcher tests `{norm(cmp_)}`", construct=f"{v}: GET_AWAITABLE oparg {gval}")
+    # PRECALL: tested exactly where the template has it
+    pre = [c for c in ast.walk(fn) if isinstance(c, ast.Compare) and "PRECALL" in opnames_in(c)]
+    if pre:
+        pl = frozenset().union(*(live(c) for c in pre))
+        for v in sorted(ctx.V.all):
+            has = any(a == "PRECALL" for a, b in T[v]["fall/sync"])
+            n_checked += 1
+            if has and v not in pl:
+                ctx.R.fail("OPC-6", mod, pre[0], f"CPython {v} emits PRECALL before CALL but the matcher's PRECALL step is not reachable under {v}: the LOAD_CONST test sees PRECALL and gives up", construct=f"{v}: PRECALL not handled")
+            elif not has and v in pl and "CALL" in [a for a, b in T[v]["fall/sync"]]:
+                ctx.R.fail("OPC-6", mod, pre[0], f"CPython {v} does not emit PRECALL but the matcher requires it on a path reachable under {v}: every synchronous exit is missed there", construct=f"{v}: PRECALL required")
+            else:
+                ctx.R.ok("OPC-6", f"{v}: PRECALL {'expected and handled' if has else 'neither emitted nor required'}")
+    # fillers right before the LOAD_CONST run on jump-out exits (3.11+): SWAP / NOP
+    tup = [c for c in ast.walk(fn) if isinstance(c, ast.Compare) and isinstance(c.ops[0], ast.In) and norm(c.left) == "code[offs]" and isinstance(c.comparators[0], ast.Tuple)
+           and set(opnames_in(c.comparators[0])) & {"SWAP", "NOP"}]
+    if tup:
+        handled = set(opnames_in(tup[0].comparators[0]))
+        for v in sorted(live(tup[0])):
+            for tname, seq in T[v].items():
+                if not tname.endswith("/sync"):
+                    continue
+                tt = [a for a, b in seq]
+                c = [i for i, a in enumerate(tt) if a == "CALL"]
+                if not c:
+                    continue
+                j = c[0] - 1
+                while j >= 0 and tt[j] in ("PRECALL", "LOAD_CONST"):
+                    j -= 1
+                if j < 0:
+                    continue
+                n_checked += 1
+                b4 = tt[j]
+                if b4 in handled or b4.startswith("LOAD_") or b4.startswith("POP_"):
+                    ctx.R.ok("OPC-6", f"{v}: `{b4}` before the None arguments ({tname}) is tolerated")
+                else:
+                    ctx.R.fail("OPC-6", mod, tup[0], f"CPython {v}: on the '{tname.split('/')[0]}' exit the compiler puts {b4} (outside the handler's range) right before the None arguments; the matcher tolerates only {sorted(handled)}",
+                               construct=f"{v}: {b4} before LOAD_CONST run")
+    if n_checked < 12:
+        raise AnalysisError(f"OPC-6: only {n_checked} template agreements checked (>= 12 confirmed by hand)")
